@@ -224,9 +224,15 @@ func main() {
 	if os.Getenv("VERIF_ONLY") != "" {
 		names = strings.Split(os.Getenv("VERIF_ONLY"), ",")
 	}
-	per := budget / time.Duration(2*len(names))
+	deadline := time.Now().Add(budget)
+	k := 0
 	for _, n := range names {
 		for _, mode := range []string{"safe", "unsafe"} {
+			per := time.Until(deadline) / time.Duration(2*len(names)-k)
+			k++
+			if per < 2*time.Second {
+				per = 2 * time.Second
+			}
 			bound := 2
 			if !c.Thorough() && ((mode == "unsafe" && n == "2x2") || n == "3c") {
 				bound = 1 // quick tier: the two largest scenarios are explored to d<=1 in unsafe mode
